@@ -148,13 +148,32 @@ def public_state(ac) -> dict:
     }
 
 
+class _RetainingHandler(logging.Handler):
+    """Formats every record and keeps the last few thousand (what pytest's caplog, a MemoryHandler or a queue handler feeding
+    another thread do): arguments of log calls stay referenced after the call returned."""
+
+    def __init__(self):
+        super().__init__(logging.DEBUG)
+        import collections
+        self.records = collections.deque(maxlen=4000)
+        self.format_errors = 0
+
+    def emit(self, record):
+        try:
+            record.getMessage()
+        except Exception:  # noqa: BLE001 - a malformed log call is not what any property is about
+            self.format_errors += 1
+        self.records.append(record)
+
+
 class debug_logging:
-    """Context manager: msmart's loggers at DEBUG level into a null handler (a configuration some applications run with)."""
+    """Context manager: msmart's loggers at DEBUG level into a handler that formats and retains the records (a configuration
+    some applications and most test suites run with)."""
 
     def __enter__(self):
         self.lg = logging.getLogger("msmart")
         self.old = (self.lg.level, self.lg.propagate, list(self.lg.handlers))
-        self.h = logging.NullHandler()
+        self.h = _RetainingHandler()
         self.lg.addHandler(self.h)
         self.lg.setLevel(logging.DEBUG)
         self.lg.propagate = False
